@@ -219,6 +219,43 @@ func TestVerif_C38(t *testing.T) {
 			tr.Count("other_roots", 1)
 		}
 	}
+	// (a3) boundary LENGTHS of every component: tags 1/127/128 (the Docker maximum) are valid, 129+ are not; repository
+	// names up to 255 characters in total; upload ids are 36-character UUIDs; digests are exactly 64 characters
+	{
+		rep := func(ch string, n int) string { return strings.Repeat(ch, n) }
+		longRepo := rep("a", 51) + "/" + rep("b", 50) + "/" + rep("c", 50) + "/" + rep("d", 50) + "/" + rep("e", 50) // 255
+		validRepos := []string{"a", rep("r", 255), longRepo, rep("x", 254), "a/" + rep("y", 253)}
+		validTags := []string{"a", "_", "0", rep("t", 127), "T" + rep("-", 126), rep("t", 128), "_" + rep(".", 127), "9" + rep("Z", 127)}
+		for _, k := range c38Kinds {
+			for _, repo := range validRepos {
+				tags := validTags
+				if k != "tagcurrent" && k != "tagindex" {
+					tags = tags[:1]
+				}
+				for _, tag := range tags {
+					c := c38Comp{repo, tag, c38Hex(r), c38UUID(r), r.Pick("a", rep("Z", 100), "sha256"), r.Pick("0", "9223372036854775807", rep("9", 30))}
+					p, meta := c38Build(k, c)
+					run(p, meta)
+					tr.Count("boundary_valid", 1)
+				}
+			}
+		}
+		// just outside the grammar: not labelled as built (the layout specification says they are no layout paths)
+		hex := c38Hex(r)
+		id := c38UUID(r)
+		for _, k := range c38Kinds {
+			for _, c := range []c38Comp{
+				{"kraken", rep("t", 129), hex, id, "sha256", "1"}, {"kraken", rep("t", 256), hex, id, "sha256", "1"}, {"kraken", ".t", hex, id, "sha256", "1"},
+				{rep("r", 256), "v1", hex, id, "sha256", "1"}, {longRepo + "x", "v1", hex, id, "sha256", "1"},
+				{"kraken", "v1", hex[:63], id, "sha256", "1"}, {"kraken", "v1", hex + "0", id, "sha256", "1"},
+				{"kraken", "v1", hex, id[:35], "sha256", "1"}, {"kraken", "v1", hex, id + "0", "sha256", "1"}, {"kraken", "v1", hex, strings.ToUpper(id), "sha256", "1"},
+			} {
+				p, _ := c38Build(k, c)
+				run(p, nil)
+				tr.Count("boundary_invalid", 1)
+			}
+		}
+	}
 	// (b) random valid components, and mutations of the built paths (rejected or reclassified — compared with the model)
 	for i := 0; i < verifh.Scale(1500, 100000); i++ {
 		c := c38Comp{c38RandRepo(r), c38Tags[r.Intn(len(c38Tags))], c38Hex(r), c38UUID(r), r.Pick("sha256", "sha512", "md5", "X9"), fmt.Sprint(r.Intn(1 << 20))}
